@@ -158,6 +158,11 @@ type RunOpts struct {
 	// Ctx, when set, is the RunContext object to use (its fields are overwritten for this run): a caller that keeps
 	// one RunContext for several Engine.Run calls and changes its fields in between
 	Ctx *ruleguard.RunContext
+	// the debug settings of the context: Debug names a rule group whose rejections are explained through DebugPrint
+	// (collected into *DebugOut when set); DebugImports explains package lookups the same way
+	Debug        string
+	DebugImports bool
+	DebugOut     *[]string
 }
 
 func offset(fset *token.FileSet, p token.Pos) int {
@@ -194,6 +199,14 @@ func Run(e *ruleguard.Engine, t *Target, o RunOpts) (reports []Report, panicKind
 		Fset:        t.Fset,
 		TruncateLen: o.TruncateLen,
 		State:       o.State,
+	}
+	if o.Debug != "" || o.DebugImports {
+		ctx.Debug, ctx.DebugImports = o.Debug, o.DebugImports
+		ctx.DebugPrint = func(s string) {
+			if o.DebugOut != nil {
+				*o.DebugOut = append(*o.DebugOut, s)
+			}
+		}
 	}
 	if o.GoVersion != "" {
 		v, verr := ruleguard.ParseGoVersion(o.GoVersion)
